@@ -639,6 +639,55 @@ func (e *Extractor) visitCall(info *types.Info, call *ast.CallExpr, bases map[ty
 	}
 }
 
+// lenEnforced: body has a top-level `if len(src) != hi-lo { return … }` (either
+// operand order), so a copy from src fills a destination of hi-lo bytes.
+func lenEnforced(info *types.Info, body *ast.BlockStmt, src ast.Expr, lo, hi types.Object) bool {
+	srcID, ok := ast.Unparen(src).(*ast.Ident)
+	if !ok {
+		return false
+	}
+	isLenSrc := func(e ast.Expr) bool {
+		c, ok := ast.Unparen(e).(*ast.CallExpr)
+		if !ok || len(c.Args) != 1 {
+			return false
+		}
+		f, ok := c.Fun.(*ast.Ident)
+		if !ok || f.Name != "len" {
+			return false
+		}
+		a, ok := ast.Unparen(c.Args[0]).(*ast.Ident)
+		return ok && info.Uses[a] == info.Uses[srcID]
+	}
+	isWidth := func(e ast.Expr) bool {
+		b, ok := ast.Unparen(e).(*ast.BinaryExpr)
+		if !ok || b.Op != token.SUB {
+			return false
+		}
+		x, ok1 := b.X.(*ast.Ident)
+		y, ok2 := b.Y.(*ast.Ident)
+		return ok1 && ok2 && info.Uses[x] == hi && info.Uses[y] == lo
+	}
+	for _, st := range body.List {
+		ifs, ok := st.(*ast.IfStmt)
+		if !ok || ifs.Init != nil {
+			continue
+		}
+		c, ok := ifs.Cond.(*ast.BinaryExpr)
+		if !ok || c.Op != token.NEQ {
+			continue
+		}
+		if !((isLenSrc(c.X) && isWidth(c.Y)) || (isLenSrc(c.Y) && isWidth(c.X))) {
+			continue
+		}
+		if n := len(ifs.Body.List); n > 0 {
+			if _, isRet := ifs.Body.List[n-1].(*ast.ReturnStmt); isRet {
+				return true
+			}
+		}
+	}
+	return false
+}
+
 func identOf(x ast.Expr) *ast.Ident {
 	id, _ := ast.Unparen(x).(*ast.Ident)
 	if id == nil {
@@ -705,13 +754,36 @@ func (e *Extractor) helperRange(info *types.Info, callee *types.Func, call *ast.
 			if id, ok := ie.X.(*ast.Ident); ok && cinfo.Uses[id] == p {
 				aObj, bObj = cinfo.Uses[lo], cinfo.Uses[hi]
 			}
-		case *ast.SliceExpr:
-			if id, ok := x.X.(*ast.Ident); ok && cinfo.Uses[id] == p {
-				lo, ok1 := x.Low.(*ast.Ident)
-				hi, ok2 := x.High.(*ast.Ident)
-				if ok1 && ok2 {
-					aObj, bObj = cinfo.Uses[lo], cinfo.Uses[hi]
+		case *ast.CallExpr:
+			// p[a:b] handed to a writer: a binary Put primitive fills its whole argument;
+			// copy(p[a:b], src) fills it only if len(src) == b-a is enforced by the helper itself.
+			if len(x.Args) == 0 {
+				return true
+			}
+			se, ok := ast.Unparen(x.Args[0]).(*ast.SliceExpr)
+			if !ok {
+				return true
+			}
+			id, ok := se.X.(*ast.Ident)
+			if !ok || cinfo.Uses[id] != p {
+				return true
+			}
+			lo, ok1 := se.Low.(*ast.Ident)
+			hi, ok2 := se.High.(*ast.Ident)
+			if !ok1 || !ok2 {
+				return true
+			}
+			full := false
+			switch fn := ast.Unparen(x.Fun).(type) {
+			case *ast.SelectorExpr:
+				full = strings.HasPrefix(fn.Sel.Name, "Put")
+			case *ast.Ident:
+				if _, isBuiltin := cinfo.Uses[fn].(*types.Builtin); isBuiltin && fn.Name == "copy" && len(x.Args) == 2 {
+					full = lenEnforced(cinfo, d.decl.Body, x.Args[1], cinfo.Uses[lo], cinfo.Uses[hi])
 				}
+			}
+			if full {
+				aObj, bObj = cinfo.Uses[lo], cinfo.Uses[hi]
 			}
 		}
 		return true
